@@ -98,6 +98,8 @@ def gate_oracle(args):
             return f"{name}: tensor differs from the matrix"
         return None
     a, b = args["a"], args["b"]
+    for (a0, b0) in args.get("before", []):  # history: the same gate object was placed elsewhere before
+        g.set_sites(a0, b0)
     g.set_sites(a, b)
     # tensor: the matrix placed on (a, b) in the given orientation, indexed by (site min, site max)
     lo, hi = min(a, b), max(a, b)
@@ -193,8 +195,13 @@ def search(ctx):
                 cases = [dict(name=name, angles=angles, a=0)]
             else:
                 cases = [dict(name=name, angles=angles, a=a, b=b) for (a, b) in ((0, 1), (1, 0), (0, 2), (3, 0), (1, 4), (4, 0))]
+            if name in TWO and k < 2:
+                cases += [dict(name=name, angles=angles, a=2, b=3, before=[(0, 1), (1, 0)]), dict(name=name, angles=angles, a=3, b=0, before=[(2, 0)]),
+                          dict(name=name, angles=angles, a=0, b=2, before=[(4, 1), (3, 1)])]
             for args in cases:
                 why = gate_oracle(args)
+                if why and args.get("before"):
+                    why += f" (the same gate object had been placed on {args['before']} before)"
                 ctx.case(nontrivial_key=(name, tuple(angles), args.get("a"), args.get("b")) if (name in NPAR or name in TWO) else None,
                          sample=args if name == "cp" and k == 0 and args.get("b") == 0 else None)
                 ctx.count("gate_" + name)
